@@ -18,7 +18,8 @@ RULE = ("generated literal interface family (as C01, without rpc/encoded) x ever
         " ; plus streams: simpleContent types as required / optional / repeating children, element and type sharing a name, types derived by restriction, enumeration aliases, factory.separator, attribute order (canonical rendering), names spelled with the document's own prefix"
         ' ; occurrence bounds 0/1/2/10/unbounded, dotted paths rooted at a global element with a named type, every create a fresh object (enumerations included)'
         ' ; element order of filled objects; a name shared by an inherited attribute and an element of the derived type'
-        " ; the client's own prefix under both path separators; an attribute whose name starts with an underscore; members present for iteration, len and in")
+        " ; the client's own prefix under both path separators; an attribute whose name starts with an underscore; members present for iteration, len and in"
+        ' ; unknown attribute steps (@name) raise TypeNotFound')
 ASSUMPTIONS = ["a name with a prefix the client does not know raises a plain Exception('prefix not resolved'), not "
                "TypeNotFound: unknown *prefixes* are outside the alphabet of unknown names",
                "factory objects of section-5 array types are outside the family",
